@@ -101,6 +101,25 @@ INTRINSICS = {
     'typing.cast': lambda t, v: v,
 }
 
+
+def _pure_library():
+    import bisect
+    import functools
+    import itertools
+    import operator
+    out = {}
+    for modname, mod, names in (('itertools', itertools, ('takewhile', 'dropwhile', 'chain', 'islice', 'accumulate', 'product', 'zip_longest', 'groupby',
+                                                         'repeat', 'count', 'starmap', 'filterfalse', 'permutations', 'combinations', 'tee')),
+                                ('functools', functools, ('reduce', 'partial')),
+                                ('bisect', bisect, ('bisect', 'bisect_left', 'bisect_right', 'insort', 'insort_left', 'insort_right')),
+                                ('operator', operator, ('itemgetter', 'add', 'sub', 'mul', 'lt', 'le', 'gt', 'ge', 'eq', 'ne', 'neg', 'not_'))):
+        for n in names:
+            out['%s.%s' % (modname, n)] = getattr(mod, n)
+    return out
+
+
+INTRINSICS.update(_pure_library())
+
 _SAFE_TYPES = (str, list, dict, set, tuple, int, bool, frozenset, bytes, float, _datetime.datetime, _datetime.date, _datetime.timedelta, _datetime.timezone)
 _BUILTINS = {'len': len, 'range': range, 'min': min, 'max': max, 'sum': sum, 'any': any, 'all': all, 'enumerate': enumerate, 'zip': zip,
              'reversed': reversed, 'list': list, 'tuple': tuple, 'set': set, 'dict': dict, 'str': str, 'int': int, 'bool': bool, 'abs': abs,
@@ -260,7 +279,20 @@ class PyEval:
                 return r.v
             return None
         if isinstance(f, PClass):
-            if any(isinstance(b, ast.Name) and b.id in ('NamedTuple', 'TypedDict') for b in f.node.bases) or not f.mod.funcs.get(f.name + '.__init__'):
+            if any(isinstance(b, ast.Name) and b.id == 'NamedTuple' for b in f.node.bases):
+                # a real named tuple: ordered comparison, unpacking, _replace and field access behave as in the program
+                key = (f.mod.rel, 'namedtuple:' + f.name)
+                if key not in self._modenv:
+                    import collections
+                    fields = [m.target.id for m in f.node.body if isinstance(m, ast.AnnAssign) and isinstance(m.target, ast.Name)]
+                    dflt = [self.expr(m.value, Env(), f.mod, f.name, depth) for m in f.node.body
+                            if isinstance(m, ast.AnnAssign) and isinstance(m.target, ast.Name) and m.value is not None]
+                    self._modenv[key] = collections.namedtuple(f.name, fields, defaults=dflt or None)
+                try:
+                    return self._modenv[key](*args, **kwargs)
+                except TypeError as x:
+                    raise Raised('TypeError: %s' % x, '?')
+            if any(isinstance(b, ast.Name) and b.id in ('TypedDict',) for b in f.node.bases) or not f.mod.funcs.get(f.name + '.__init__'):
                 fields = [m.target.id for m in f.node.body if isinstance(m, ast.AnnAssign) and isinstance(m.target, ast.Name)]
                 o = PObj(f.mod, f.name)
                 for n_, v_ in zip(fields, args):
@@ -553,6 +585,12 @@ class PyEval:
             return PMod(dotted)
         if isinstance(o, tuple) and len(o) == 2 and o[0] == 'module':
             return self.global_name(o[1], name, loc)
+        if isinstance(o, type) and o in (_datetime.datetime, _datetime.timezone, _datetime.timedelta, _datetime.date) and not name.startswith('_'):
+            if name in ('now', 'today', 'utcnow'):
+                raise AnalysisError('abstract evaluation: %s.%s at %s reads the clock' % (o.__name__, name, loc))
+            return getattr(o, name)
+        if isinstance(o, tuple) and name in ('_replace', '_asdict', '_fields') and hasattr(o, '_fields'):
+            return getattr(o, name)
         if isinstance(o, _SAFE_TYPES) and not name.startswith('_'):
             try:
                 return getattr(o, name)
@@ -702,7 +740,12 @@ class PyEval:
             if isinstance(f, PMod):
                 if f.dotted in self.intr:
                     return self.apply(self.intr[f.dotted], args, kwargs, depth)
-                if f.dotted.split('.')[-1] in ('TypedDict', 'NamedTuple', 'TypeVar', 'NewType'):
+                if f.dotted.split('.')[-1] == 'NamedTuple' and len(args) == 2 and isinstance(args[0], str):
+                    import collections
+                    return collections.namedtuple(args[0], [x[0] for x in args[1]])
+                if f.dotted.split('.')[-1] == 'TypedDict':
+                    return dict
+                if f.dotted.split('.')[-1] in ('NamedTuple', 'TypeVar', 'NewType'):
                     return None
                 if f.dotted in ('sys.exit', 'exit'):
                     raise Raised('SystemExit', loc)
